@@ -1,10 +1,15 @@
-"""Run driver jobs in an interpreter started with -O (asserts stripped, __debug__ false):  python -O -B -m harness.opt_worker
+"""Run driver jobs in a strict interpreter - started with -O (asserts stripped, __debug__ false) and with warnings from the
+library turned into errors:  python -O -B -m harness.opt_worker
 Reads [(driver name, kwargs), ...] as JSON from stdin, writes one JSON trace per line."""
 import json
 import sys
 
 
 def main():
+    # a strict environment: besides -O, every warning issued from the library's own modules is an error (what a test run
+    # with -W error sees); the library is silent under it at the pinned commit
+    import warnings
+    warnings.filterwarnings('error', module=r'penman(\.|$)')
     from . import framework
     jobs = json.load(sys.stdin)
     for name, kw in jobs:
